@@ -127,6 +127,25 @@ def name_sites():
             t = _t(N)
             return Qc.update(t).set(t.field(N("=" + special)), 2).where(t.field(N("=" + special)) == 1)
 
+    # the helper constructors (Query.Table / Query.Tables / make_tables / make_columns) with names of every short length: a name is a
+    # name whatever its length, a (name, alias) pair only when it is given as a 2-tuple
+    for short in ("i", "id", 'x"', "a b", "ab`"):
+        @site("tables-helper-name-%r" % short)
+        def _(N, V, Qc, short=short):
+            t, u = Qc.Tables(N("=" + short), (N("u"), N("ua")))
+            return Qc.from_(t).join(u).on(t[N("c")] == u[N("d")]).select(t[N("c")], u.star).where(t[N("=" + short)] == 1)
+
+        @site("table-helper-name-%r" % short)
+        def _(N, V, Qc, short=short):
+            t = Qc.Table(N("=" + short))
+            (w,) = Q.make_tables(N("w"))
+            return Qc.from_(t).join(w).on(t[N("c")] == w[N("c")]).select(t[N("c")], w[N("=" + short)])
+
+        @site("create-table-columns-helper-%r" % short)
+        def _(N, V, Qc, short=short):
+            cols = Q.make_columns(N("=" + short), (N("c"), "INT"))
+            return Qc.create_table(N("t")).columns(*cols).unique(N("=" + short))
+
     @site("cte-definition-and-reference")
     def _(N, V, Qc):
         t = _t(N)
